@@ -103,12 +103,12 @@ func WaitAvailableKeys(keys *Keys, cfg *inputrc.Config) error {
 // yet marking this key as having matched a bind command.
 func PopKey(keys *Keys) (key byte, empty bool) {
 	switch {
-	case len(keys.buf) > 0:
-		key = keys.buf[0]
-		keys.buf = keys.buf[1:]
 	case len(keys.macroKeys) > 0:
 		key = byte(keys.macroKeys[0])
 		keys.macroKeys = keys.macroKeys[1:]
+	case len(keys.buf) > 0:
+		key = keys.buf[0]
+		keys.buf = keys.buf[1:]
 	default:
 		return byte(0), true
 	}
@@ -119,10 +119,10 @@ func PopKey(keys *Keys) (key byte, empty bool) {
 // PeekKey returns the first key in the stack, without removing it.
 func PeekKey(keys *Keys) (key byte, empty bool) {
 	switch {
-	case len(keys.buf) > 0:
-		key = keys.buf[0]
 	case len(keys.macroKeys) > 0:
 		key = byte(keys.macroKeys[0])
+	case len(keys.buf) > 0:
+		key = keys.buf[0]
 	default:
 		return byte(0), true
 	}
@@ -139,10 +139,29 @@ func MatchedKeys(keys *Keys, matched []byte, args ...byte) {
 	}
 
 	if len(args) > 0 {
-		keys.buf = append(args, keys.buf...)
+		keys.pushBack(args)
 	}
 
 	keys.mustWait = false
+}
+
+// pushBack puts keys that have been read but not used back in front of
+// the remaining ones. Keys fed by macros are always read before the keys
+// read from the terminal, so if some of them are left, all the keys that
+// we put back come from them as well.
+func (k *Keys) pushBack(keys []byte) {
+	if len(k.macroKeys) > 0 {
+		fed := make([]rune, 0, len(keys))
+		for _, key := range keys {
+			fed = append(fed, rune(key))
+		}
+
+		k.macroKeys = append(fed, k.macroKeys...)
+
+		return
+	}
+
+	k.buf = append(keys, k.buf...)
 }
 
 // MatchedPrefix is similar to MatchedKeys, except that the provided keys
@@ -169,12 +188,12 @@ func MatchedPrefix(keys *Keys, prefix ...byte) {
 // escape has been handled specially as a Vim escape.
 func PopForce(keys *Keys) (key byte, empty bool) {
 	switch {
-	case len(keys.buf) > 0:
-		key = keys.buf[0]
-		keys.buf = keys.buf[1:]
 	case len(keys.macroKeys) > 0:
 		key = byte(keys.macroKeys[0])
 		keys.macroKeys = keys.macroKeys[1:]
+	case len(keys.buf) > 0:
+		key = keys.buf[0]
+		keys.buf = keys.buf[1:]
 	default:
 		return byte(0), true
 	}
@@ -278,12 +297,12 @@ func (k *Keys) popRune() rune {
 // to select-inside. This function Pop() will thus return the quote.)
 func (k *Keys) Pop() (key byte, empty bool) {
 	switch {
-	case len(k.buf) > 0:
-		key = k.buf[0]
-		k.buf = k.buf[1:]
 	case len(k.macroKeys) > 0:
 		key = byte(k.macroKeys[0])
 		k.macroKeys = k.macroKeys[1:]
+	case len(k.buf) > 0:
+		key = k.buf[0]
+		k.buf = k.buf[1:]
 	default:
 		return byte(0), true
 	}
